@@ -449,6 +449,47 @@ fn fidelity(rep: &mut Report) {
         }
         stop.store(true, Ordering::Relaxed);
         let _ = h.join();
+        // HTTP (Eco): the request goes to the caller's ADDRESS also when a host name is given as request setting (the name is
+        // for the Host header, it is not looked up): a name that does not resolve at all, and one that resolves elsewhere
+        for host in ["gamedig-no-such-host.invalid", "localhost"] {
+            if host == "localhost" && ipv == 4 {
+                continue; // (on an IPv4 loopback `localhost` usually is the same address: nothing to tell apart)
+            }
+            rep.evaluations += 1;
+            rep.distinct.insert(hash_of(&("http-host", ipv, host)));
+            let hl = TcpListener::bind(SocketAddr::new(ip, 0)).unwrap();
+            let haddr = hl.local_addr().unwrap();
+            hl.set_nonblocking(true).unwrap();
+            let got: Arc<Mutex<Vec<u8>>> = Arc::new(Mutex::new(Vec::new()));
+            let got2 = got.clone();
+            let srv = std::thread::spawn(move || {
+                let t0 = Instant::now();
+                while t0.elapsed() < Duration::from_millis(2500) {
+                    if let Ok((mut st, _)) = hl.accept() {
+                        let _ = st.set_nonblocking(false);
+                        let _ = st.set_read_timeout(Some(Duration::from_millis(300)));
+                        let mut b = [0u8; 1024];
+                        if let Ok(n) = st.read(&mut b) {
+                            got2.lock().unwrap().extend(&b[.. n]);
+                        }
+                        let _ = st.write_all(b"HTTP/1.1 200 OK\r\nContent-Type: application/json\r\nContent-Length: 2\r\nConnection: close\r\n\r\n{}");
+                        return;
+                    }
+                    std::thread::sleep(Duration::from_millis(5));
+                }
+            });
+            let x: gamedig::games::eco::EcoRequestSettings = gamedig::protocols::types::ExtraRequestSettings::default().set_hostname(host.to_string()).into();
+            let r = std::panic::catch_unwind(|| gamedig::games::eco::query_with_timeout_and_extra_settings(&haddr.ip(), Some(haddr.port()), &settings(0, "rw"), Some(x)).map(|_| ()).map_err(|e| format!("{:?}", e.kind)));
+            let _ = srv.join();
+            let seen = got.lock().unwrap().clone();
+            let case = json!({"transport":"http","ipv":ipv,"hostname_setting":host,"outcome": match &r { Ok(Ok(())) => "ok".to_string(), Ok(Err(e)) => e.clone(), Err(_) => "panic".into() }});
+            if r.is_err() {
+                rep.violation("C12", &format!("http/ipv{ipv}: panic {}", crate::valve::first_line(&take_panic())), json!({"kind":"fidelity","case":case}));
+            } else if !seen.starts_with(b"GET ") {
+                rep.violation("C12", &format!("http/ipv{ipv}: with a host name as request setting the request does not reach the caller's address"),
+                              json!({"kind":"fidelity","case":case}));
+            }
+        }
         // TCP: bytes out, bytes back until the peer closes
         let l = TcpListener::bind(SocketAddr::new(ip, 0)).unwrap();
         let taddr = l.local_addr().unwrap();
